@@ -64,8 +64,12 @@ impl Env {
     }
 }
 
+/// the kind of a hook's or handler's error is the application's business: each part has its own
+/// (seeded change C19k re-ran a before-hook that failed with kind Interrupted)
 fn err(tag: &str, id: usize) -> ServerError {
-    ServerError::new(std::io::ErrorKind::Other, format!("{tag}{id}"))
+    use std::io::ErrorKind::*;
+    let kinds = [Interrupted, Other, WouldBlock, TimedOut, PermissionDenied, UnexpectedEof, InvalidData];
+    ServerError::new(kinds[id % kinds.len()], format!("{tag}{id}"))
 }
 
 #[derive(Clone)]
